@@ -258,9 +258,9 @@ def run(ctx):
 
     try:
         # ---- 2. GEN: cases from random walks over the spec's own actions
-        ncases = ctx.pick(70, 1400)
+        ncases = ctx.pick(70, 1000)
         cases = []
-        batches = ctx.pick([(ncases, 45, 8)], [(500, 45, 8), (500, 70, 12), (400, 30, 5)])
+        batches = ctx.pick([(ncases, 45, 8)], [(400, 45, 8), (300, 70, 12), (300, 30, 5)])
         for bi, (num, depth, maxmut) in enumerate(batches):
             g = ctx.tlc("NotifyOutboxGen", "NotifyOutbox.Gen.cfg", workers=1, timeout=900, simulate="num=%d" % num, depth=depth,
                         seed=ctx.seed * 1000 + bi, count_mc=False, subst={"GenDepth": str(depth), "GenMaxMut": str(maxmut)})
